@@ -192,6 +192,7 @@ type summary struct {
 	Skipped    int            `json:"skipped_children"`
 	// children with a restrictive default action that died before answering all probes (inconclusive, see job.Restrictive)
 	Inconclusive int           `json:"inconclusive_children"`
+	FailedLoads  int           `json:"failed_loads_not_judged"`
 	Samples      []interface{} `json:"samples"`
 }
 
@@ -389,8 +390,14 @@ func judgeChild(base failure, j *job, o *outcome, fatalIdx int) {
 		return
 	}
 	if o.load != 1 {
-		f := mk("load", "LoadFilter failed for a valid policy: "+o.stderr)
-		fail(f)
+		// the statement starts "after a successful load": a load that fails is not judged here (C09 / C11 speak about it),
+		// except that what was handed to the kernel must still be the compiled program
+		mu.Lock()
+		sum.FailedLoads++
+		mu.Unlock()
+		if o.hlen != 0 && (o.same != 1 || o.hlen != o.ownlen) {
+			fail(mk("installed", fmt.Sprintf("the program handed to the kernel (%d instructions) is not the compiled one (%d instructions); the load failed: %s", o.hlen, o.ownlen, o.stderr)))
+		}
 		return
 	}
 	if o.hflags != j.Flags {
